@@ -1,6 +1,6 @@
 (* C04 — proofs about the accept/reject decision table (Model/Accepts.v). *)
 From Coq Require Import ZArith Bool List String.
-From EV Require Import Base.Arith Gen.Guards Gen.SvGuards Model.ConfigGuards Model.Accepts.
+From EV Require Import Base.Arith Gen.Dispatch Gen.SvGuards Model.DispatchModel Model.Accepts.
 Import ListNotations.
 
 (* ---- the enumerators cover their whole type ------------------------------------------------ *)
